@@ -12,6 +12,15 @@ import common
 
 NAMES = ['r0', 'bb', 'c', 'dddd', 'ee', 'f']
 SIZES = [0, 7, 12, 7, 300, 5]
+# modification times (UTC = the local zone of model and replay): both edges of 2021-12-31 (a year boundary, month 12) and of its last
+# hour / minute / second; MT_NS is the sub-second part (the last second of the day is stamped 23:59:59.5)
+MTIMES = ['2021-12-30 23:59:59', '2021-12-31 00:00:00', '2021-12-31 23:59:59', '2022-01-01 00:00:00', '2021-12-31 23:00:00', '2021-12-31 22:59:59']
+MT_NS = [0, 0, 500000000, 0, 999999999, 0]
+
+
+def epoch(text):
+    import calendar, time as _t
+    return calendar.timegm(_t.strptime(text, '%Y-%m-%d %H:%M:%S'))
 
 
 def gfv(ctx, args, callee):
@@ -30,6 +39,12 @@ def gfv(ctx, args, callee):
         b = W.fs_of(ctx).isdir(node)
         isd = ctx.decide(b)
         return E.mk_variant(ctx.prog, 'Bool', string_value=Str('true' if isd else 'false'), int_value=some(BitVecVal(int(isd), 64)), bool_value=some(BoolVal(isd)))
+    if name == 'Modified':
+        from drivers import c13
+        t = epoch(MTIMES[node])
+        dt = c13.DateC(BitVecVal(t // 86400, 64), BitVecVal(t % 86400 // 3600, 32), BitVecVal(t % 3600 // 60, 32), BitVecVal(t % 60, 32))
+        dt.ns = BitVecVal(MT_NS[node], 32)
+        return ctx.call_fn(ctx.prog.find('Variant', 'from_datetime'), [dt])
     raise Unmodelled('e2e get_field_value summary: column ' + str(name))
 
 
@@ -73,7 +88,7 @@ def regex_models():
             (r'^regex::Regex::is_match$|^Regex::is_match$', is_match, 'regex:is_match on concrete pattern and subject (Python re as the engine)')]
 
 
-def overrides():
+def overrides(extra=()):
     from drivers import c09, c11
     base = [o for o in W.models() if o[2] not in ('summary:check_file', 'summary:TopN::values(empty)', 'summary:ResultsWriter(token)',
                                                   "summary:Parser::parse(returns the driver's Query)") and 'write_fmt' not in o[0]]
@@ -82,7 +97,7 @@ def overrides():
         e = ctx.deref(args[1])
         ctx.ghost.setdefault('visited', []).append(e.node)
         return ctx.call_fn(ctx.prog.find('Searcher', 'check_file'), list(args))
-    return ([(r'Searcher::check_file$', check_file, 'trace:check_file (records the entry, then runs the real function)')]
+    return (list(extra) + [(r'Searcher::check_file$', check_file, 'trace:check_file (records the entry, then runs the real function)')]
             + regex_models() + c09.writer_models(True) + c11.lexer_models() + base
             + [(r'Searcher::get_field_value$', gfv, 'summary:get_field_value(concrete values per entry)'),
                (r'^UserDirs::new$|^directories::UserDirs::new$', lambda ctx, a, c: none(), 'stub:UserDirs::new(None)')])
@@ -106,14 +121,14 @@ def stdout_text(ctx):
     return ''.join(out)
 
 
-def family(sess, fam, queries, M=None):
+def family(sess, fam, queries, M=None, extra=()):
     """queries: list of (query text with root R0, reference(list of visited node ids, kinds dict) -> list of rows (list of str), ordered: bool)"""
     prog = sess.prog
     M = M or (4 if sess.tier == 'quick' else 5)
     sess.bounds[fam] = {'nodes': M, 'entry kinds': 'file / directory (symbolic)', 'tree shape': 'symbolic', 'queries': [q[0] for q in queries],
-                        'values': {'name': NAMES[:M], 'size': SIZES[:M]}}
+                        'values': {'name': NAMES[:M], 'size': SIZES[:M], 'modified (UTC)': MTIMES[:M]}}
     for text, ref, ordered in queries:
-        ex = sess.executor(overrides(), unwind=M + 400, maxsteps=4000000)
+        ex = sess.executor(overrides(extra), unwind=M + 400, maxsteps=4000000)
         box = {'paths': 0}
         nm = '%s `%s`' % (fam, text)
 
@@ -168,7 +183,7 @@ def cli_replay(text, ref, ordered):
             tree = {'R0': {'kind': 'dir'}}
             visited = []; kinds = {}
             for i in range(1, k + 1):
-                tree['R0/' + NAMES[i]] = {'size': SIZES[i]}; kinds[i] = False
+                tree['R0/' + NAMES[i]] = {'size': SIZES[i], 'mtime_ns': epoch(MTIMES[i]) * 10 ** 9 + MT_NS[i]}; kinds[i] = False
                 visited.append(i)
             r = common.run_cli(exe, [text], tree)
             got = [l.split('\t') for l in r['stdout'].split('\n')[:-1]]
